@@ -176,12 +176,13 @@ static std::string unhex(const std::string &s){ std::string o; auto v = [](char 
 
 // vf::run_child with a resident-set limit: a restart that parses a torn file may loop on a garbage count allocating memory for ever
 // (hundreds of MB per second); sanitizer options cannot bound that in a forked child, so the parent polls /proc/<pid>/statm.
-static long g_rss_limit_mb = 250; // set per child: resident size of the forking worker + 120 MB
+static long g_rss_growth_mb = 32;
+static long g_rss_limit_mb = 250; // set per child: resident size of the forking worker + g_rss_growth_mb
 static long self_rss_mb(){ int fd = ::open("/proc/self/statm", O_RDONLY); if (fd < 0) return 100; char sb[128]; ssize_t r = ::read(fd, sb, sizeof(sb) - 1); ::close(fd); long size = 0, res = 0; if (r > 0){ sb[r] = 0; if (sscanf(sb, "%ld %ld", &size, &res) == 2) return res * (sysconf(_SC_PAGESIZE) / 1024) / 1024; } return 100; }
 static vf::Outcome run_child_limited(const std::function<void(int)> &body, double timeout_s, bool *runaway){
     using namespace vf;
     if (runaway) *runaway = false;
-    g_rss_limit_mb = self_rss_mb() + 120;
+    g_rss_limit_mb = self_rss_mb() + g_rss_growth_mb;
     int pr[2], pe[2]; if (pipe(pr) || pipe(pe)){ perror("pipe"); exit(2); }
     pid_t pid = fork();
     if (pid < 0){ perror("fork"); exit(2); }
@@ -194,7 +195,7 @@ static vf::Outcome run_child_limited(const std::function<void(int)> &body, doubl
         if (open_r){ fds[n].fd = pr[0]; fds[n].events = POLLIN; ir = n++; }
         if (open_e){ fds[n].fd = pe[0]; fds[n].events = POLLIN; ie = n++; }
         double left = deadline - now(); if (left <= 0){ timed_out = true; break; }
-        int rc = poll(fds, n, (int) std::min(left * 1000.0 + 1, 25.0));
+        int rc = poll(fds, n, (int) std::min(left * 1000.0 + 1, 10.0));
         if (rc < 0){ if (errno == EINTR) continue; break; }
         if (rc == 0){
             int sfd = ::open(statm, O_RDONLY); if (sfd >= 0){ char sb[128]; ssize_t r = ::read(sfd, sb, sizeof(sb) - 1); ::close(sfd);
@@ -220,10 +221,13 @@ enum { FAM_LOCALP = 0, FAM_WAVELET, FAM_SEQUENCE, FAM_GLOBAL, FAM_FOURIER, NFAM 
 static const char *famname[] = {"localp", "wavelet", "sequence", "global", "fourier"};
 struct Scn {
     int fam = 0, budget = 6, batch = 1, parallel = 0;
-    std::string name() const{ return std::string(famname[fam]) + "/budget" + std::to_string(budget) + "/batch" + std::to_string(batch) + (parallel ? "/parallel1" : "/sequential"); }
-    std::string json() const{ return vf::J().s("fam", famname[fam]).i("budget", budget).i("batch", batch).i("parallel", parallel).str(); }
+    int preload = 0; // > 0: the grid handed to constructSurrogate is a local polynomial grid of this depth with all its values loaded (>= 1000 points:
+                     // constructSurrogate then keeps new samples in its CompleteStorage, so the checkpoints carry a non-empty sample store); budget = additional samples
+    std::string name() const{ return std::string(famname[fam]) + "/budget" + std::to_string(budget) + "/batch" + std::to_string(batch) + (parallel ? "/parallel1" : "/sequential") + (preload ? "/preloaded" + std::to_string(preload) : ""); }
+    vf::J json() const{ vf::J j; j.s("fam", famname[fam]).i("budget", budget).i("batch", batch).i("parallel", parallel).i("preload", preload); return j; }
 };
 static const int DIMS = 2;
+static const int PRELOAD_DEPTH = 8;
 // smooth, non-symmetric, bounded away from zero (a silently zero-filled sample can never look right)
 static double model_value(int fam, const double *x){
     if (fam == FAM_FOURIER) return 3.0 + std::cos(2.0 * M_PI * x[0]) + 0.5 * std::sin(2.0 * M_PI * (x[0] + 2.0 * x[1])) + 0.25 * std::cos(4.0 * M_PI * x[1]);
@@ -231,7 +235,9 @@ static double model_value(int fam, const double *x){
 }
 static void make_grid(TasmanianSparseGrid &g, const Scn &s){
     switch(s.fam){
-        case FAM_LOCALP:   g.makeLocalPolynomialGrid(DIMS, 1, 1, 1, rule_localp); break;
+        case FAM_LOCALP:   g.makeLocalPolynomialGrid(DIMS, 1, s.preload ? s.preload : 1, 1, rule_localp);
+                           if (s.preload){ std::vector<double> x = g.getNeededPoints(), y(x.size() / DIMS); for(size_t i=0;i<y.size();i++) y[i] = model_value(s.fam, &x[i * DIMS]); g.loadNeededValues(y); }
+                           break;
         case FAM_WAVELET:  g.makeWaveletGrid(DIMS, 1, 0, 1); break;
         case FAM_SEQUENCE: g.makeSequenceGrid(DIMS, 1, 1, type_level, rule_rleja); break;
         case FAM_GLOBAL:   g.makeGlobalGrid(DIMS, 1, 1, type_level, rule_clenshawcurtis); break;
@@ -239,7 +245,7 @@ static void make_grid(TasmanianSparseGrid &g, const Scn &s){
     }
 }
 template<bool par> static void construct_t(const Scn &s, TasmanianSparseGrid &g, ModelSignature m, const std::string &fn){
-    size_t budget = (size_t) s.budget, batch = (size_t) s.batch;
+    size_t budget = (size_t) s.budget + (size_t) g.getNumLoaded(), batch = (size_t) s.batch; // the budget counts the points the grid already has
     switch(s.fam){
         case FAM_LOCALP: case FAM_WAVELET:
             constructSurrogate<par, no_initial_guess>(m, budget, 1, batch, g, 1.E-6, refine_classic, -1, std::vector<int>(), fn); break;
@@ -311,6 +317,7 @@ static void child_run(const Scn &s, int mode, int fd, const std::vector<fs::Ev> 
         for(size_t i=0;i<n;i++) y[i] = model_value(s.fam, &x[i * DIMS]);
     };
     TasmanianSparseGrid g; make_grid(g, s);
+    if (mode == 0) vf::wr(fd, "G " + std::to_string(g.getNumLoaded()) + "\n");
     std::string xt, xw;
     fs::active = true;
     try{ construct(s, g, model, fs::main_path); }
@@ -345,6 +352,7 @@ struct Ref {
     std::vector<std::vector<Key>> calls;    // model calls
     std::vector<std::set<Key>> before;      // samples returned by the model before episode e
     std::map<std::string, int> by_digest;   // digest of a main image -> latest episode with that image
+    int base = 0;                           // points loaded in the grid before the construction started
     int nl = 0, np = 0; long valbad = 0; double maxerr = 0; std::set<Key> final_pts;
     std::vector<std::vector<long>> cuts;    // field boundaries per episode image (may be empty)
     std::string sig;                        // digest of the whole reference run (determinism check)
@@ -359,7 +367,7 @@ static void clean_dir(){
     while((e = readdir(d))){ std::string n = e->d_name; if (n != "." && n != "..") names.push_back(n); }
     closedir(d); for(auto &n : names) raw_rm(fs::dir + "/" + n);
 }
-static Ref reference_run(const Scn &s){
+static Ref reference_run(const Scn &s, bool with_cuts = true){
     Ref R; R.s = s; clean_dir();
     vf::Outcome o = vf::run_child([&](int fd){ child_run(s, 0, fd, nullptr, -1, 0); }, 60.0);
     if (o.kind != vf::Outcome::OK){ R.err = "reference run failed: " + o.describe() + " " + o.err.substr(0, 600); return R; }
@@ -370,6 +378,7 @@ static Ref reference_run(const Scn &s){
         if (line[0] == 'E'){ fs::Ev e; sscanf(line.c_str() + 2, "%d %d %ld", &e.kind, &e.file, &e.n); R.ev.push_back(e); R.ev_ep.push_back(ep); }
         else if (line[0] == 'M'){ R.calls.push_back(parse_pts(line.substr(1))); ep++; }
         else if (line[0] == 'I'){ int e, f, ex; char *q; e = (int) strtol(line.c_str() + 2, &q, 10); f = (int) strtol(q, &q, 10); ex = (int) strtol(q, &q, 10); while(*q == ' ') q++; imgs[{e, f}] = {ex != 0, unhex(q)}; }
+        else if (line[0] == 'G'){ R.base = atoi(line.c_str() + 2); }
         else if (line[0] == 'X'){ R.err = "reference run threw: " + line.substr(2); return R; }
         else if (line[0] == 'R'){ char me[64]; sscanf(line.c_str() + 2, "%d %d %ld %63s", &R.nl, &R.np, &R.valbad, me); R.maxerr = strtod(me, nullptr); have_r = true; }
         else if (line[0] == 'P'){ for(auto &k : parse_pts(line.substr(1))) R.final_pts.insert(k); }
@@ -384,14 +393,16 @@ static Ref reference_run(const Scn &s){
     for(int e=0; e<R.nep; e++) if (R.has[0][e]) R.by_digest[vf::digest(R.img[0][e])] = e;
     // field boundaries: re-serialise each image through a recording stream buffer (selection heuristic of the quick tier, not an oracle)
     R.cuts.resize(R.nep);
-    for(int e=0; e<R.nep; e++){
-        if (!R.has[0][e] || R.img[0][e].empty()) continue;
-        const std::string img = R.img[0][e];
+    if (with_cuts){
         vf::Outcome c = vf::run_child([&](int fd){
-            try{ std::istringstream is(img); TasmanianSparseGrid g; g.read(is, mode_binary); RecBuf rb; std::ostream os(&rb); g.write(os, mode_binary);
-                 if (img.compare(0, rb.data.size(), rb.data) == 0){ std::string l = "B"; for(long c2 : rb.cuts) l += " " + std::to_string(c2); l += " " + std::to_string(rb.data.size() + 16) + "\n"; vf::wr(fd, l); } }catch(...){}
-        }, 20.0);
-        if (c.kind == vf::Outcome::OK && c.out.size() > 1 && c.out[0] == 'B') for(long v : vf::jints(c.out.substr(1))) R.cuts[e].push_back(v);
+            for(int e=0; e<R.nep; e++){
+                if (!R.has[0][e] || R.img[0][e].empty()) continue;
+                const std::string &img = R.img[0][e];
+                try{ std::istringstream is(img); TasmanianSparseGrid g; g.read(is, mode_binary); RecBuf rb; std::ostream os(&rb); g.write(os, mode_binary);
+                     if (img.compare(0, rb.data.size(), rb.data) == 0){ std::string l = "B " + std::to_string(e); for(long c2 : rb.cuts) l += " " + std::to_string(c2); l += " " + std::to_string(rb.data.size() + 16) + "\n"; vf::wr(fd, l); } }catch(...){}
+            }
+        }, 60.0);
+        if (c.kind == vf::Outcome::OK){ std::istringstream cin2(c.out); std::string l; while(std::getline(cin2, l)) if (l.size() > 2 && l[0] == 'B'){ auto v = vf::jints(l.substr(1)); if (!v.empty() && v[0] >= 0 && v[0] < R.nep) R.cuts[v[0]].assign(v.begin() + 1, v.end()); } }
     }
     std::string sg; for(auto &e : R.ev) sg += std::to_string(e.kind) + "," + std::to_string(e.file) + "," + std::to_string(e.n) + ";";
     for(int e=0; e<R.nep; e++) sg += vf::digest(R.img[0][e]) + (R.has[1][e] ? vf::digest(R.img[1][e]) : "-");
@@ -409,13 +420,15 @@ static std::vector<KP> kill_points(const Ref &R, bool every_byte){
         const fs::Ev &e = R.ev[k-1];
         if (e.kind != fs::WRITE || e.n <= 1) continue;
         std::set<long> offs;
-        if (every_byte || e.n <= 64){ for(long b=1; b<e.n; b++) offs.insert(b); }
+        // position of this write inside the image of its file: bytes written earlier in the same open-episode
+        int ep = R.ev_ep[k-1]; long base = 0; for(long q=k-1; q>=1 && R.ev_ep[q-1] == ep && R.ev[q-1].kind == fs::WRITE && R.ev[q-1].file == e.file; q--) base += R.ev[q-1].n;
+        long img = (long) R.img[0][ep].size(); bool small = img <= 4096;
+        if ((every_byte && small) || e.n <= 64){ for(long b=1; b<e.n; b++) offs.insert(b); }
         else{
             offs.insert(1); offs.insert(e.n - 1);
-            for(long b=24; b<e.n; b+=24) offs.insert(b);
-            // the image this write belongs to: boundaries of the episode's final main image shifted by the bytes already written in the episode
-            int ep = R.ev_ep[k-1]; long base = 0; for(long q=k-1; q>=1 && R.ev_ep[q-1] == ep && R.ev[q-1].kind == fs::WRITE && R.ev[q-1].file == e.file; q--) base += R.ev[q-1].n;
-            if (e.file == 0) for(long c : R.cuts[ep]) for(long d=-1; d<=1; d++){ long b = c - base + d; if (b >= 1 && b < e.n) offs.insert(b); }
+            long stride = small ? 24 : 512; for(long b=stride; b<e.n; b+=stride) offs.insert(b);
+            for(long c : R.cuts[ep]) for(long d=-1; d<=1; d++){ long b = c - base + d; if (b >= 1 && b < e.n) offs.insert(b); }
+            if (!small && every_byte) for(long p2 = std::max(0L, img - 320); p2 < img; p2++){ long b = p2 - base; if (b >= 1 && b < e.n) offs.insert(b); } // the trailing sample store, every byte
         }
         for(long b : offs) v.push_back({k, b});
     }
@@ -480,7 +493,7 @@ static Verdict judge(const Ref &R, const KP &kp, bool main_ex, const std::string
     // ---- (2) the restart
     std::string res, start = "unknown"; std::set<Key> recomputed; size_t ncalls = 0; for(auto &c : rc.calls) ncalls += c.size();
     int start_ep = -1;
-    if (rc.has_s && rc.s_len >= 0){ auto it = R.by_digest.find(rc.s_dig); if (it == R.by_digest.end()) start = "non-checkpoint"; else { start_ep = it->second; start = (start_ep > L) ? "new" : (start_ep == L ? "last" : (start_ep == 0 ? "scratch" : "stale")); } }
+    if (rc.has_s && rc.s_len >= 0){ auto it = R.by_digest.find(rc.s_dig); if (it == R.by_digest.end()) start = "non-checkpoint"; else { start_ep = it->second; start = (start_ep > L) ? "new" : (start_ep == L ? "last" : ((start_ep == 0 || R.img[0][start_ep] == R.img[0][0]) ? "scratch" : "stale")); } }
     if (L >= 0) for(auto &c : rc.calls) for(auto &k : c) if (R.before[L].count(k)) recomputed.insert(k);
     V.evals++;
     if (rc.o.kind == vf::Outcome::TIMEOUT) res = "runaway"; // no return within the watchdog, or resident memory growing past the limit
@@ -490,7 +503,7 @@ static Verdict judge(const Ref &R, const KP &kp, bool main_ex, const std::string
     else if (!rc.xt.empty()) res = "throws:" + rc.xt + (rc.xt == "runtime_error" ? ":" + g_slug(rc.xw) : ""); // messages of length_error etc. belong to libstdc++
     else if (!rc.has_r) res = "no-report";
     if (!res.empty()){
-        V.viol.push_back({"C17:restart:" + res + ":" + where, ctx.str() + "The restart did not return normally: " + res + (rc.o.kind == vf::Outcome::TIMEOUT ? (rc.runaway ? " (killed when its resident memory had grown by 120 MB to " + std::to_string(g_rss_limit_mb) + " MB while reading the checkpoint; a normal restart allocates a few hundred KB)" : " (no return within " + std::to_string((int) g_child_timeout) + " s; a normal restart takes ~20 ms)") : "") + (rc.xw.empty() ? "" : " what=\"" + rc.xw + "\"") + (rc.o.err.empty() ? "" : " stderr: " + rc.o.err.substr(0, 700))});
+        V.viol.push_back({"C17:restart:" + res + ":" + where, ctx.str() + "The restart did not return normally: " + res + (rc.o.kind == vf::Outcome::TIMEOUT ? (rc.runaway ? " (killed when its resident memory had grown by " + std::to_string(g_rss_growth_mb) + " MB to " + std::to_string(g_rss_limit_mb) + " MB while reading the checkpoint; a normal restart allocates a few hundred KB)" : " (no return within " + std::to_string((int) g_child_timeout) + " s; a normal restart takes ~20 ms)") : "") + (rc.xw.empty() ? "" : " what=\"" + rc.xw + "\"") + (rc.o.err.empty() ? "" : " stderr: " + rc.o.err.substr(0, 700))});
     }else{
         std::ostringstream d; d << ctx.str() << "Restart: start state = " << start << (start_ep >= 0 ? " (checkpoint " + std::to_string(start_ep) + ")" : "") << ", " << rc.calls.size() << " model calls / " << ncalls << " samples, "
                                  << recomputed.size() << " of them already acknowledged, final loaded points " << rc.nl << ", bad values " << rc.valbad << ", max nodal error " << rc.maxerr << ". ";
@@ -507,10 +520,10 @@ static Verdict judge(const Ref &R, const KP &kp, bool main_ex, const std::string
         // (2c) budget
         V.evals++;
         size_t have = (start_ep >= 0) ? R.before[start_ep].size() : 0; std::set<Key> fresh; for(auto &c : rc.calls) for(auto &k : c) if (start_ep < 0 || !R.before[start_ep].count(k)) fresh.insert(k);
-        if (rc.nl > s.budget || have + fresh.size() > (size_t) s.budget){
+        if (rc.nl > s.budget + R.base || have + fresh.size() > (size_t) s.budget){
             if (res.empty()) res = "budget-exceeded:start=" + start;
-            // the overrun is a function of the recovered state, not of where the process died: the signature names the start state only
-            V.viol.push_back({"C17:restart:budget-exceeded:start=" + start, d.str() + "Budget " + std::to_string(s.budget) + " exceeded: " + std::to_string(have) + " samples in the recovered state + " + std::to_string(fresh.size()) + " new ones."});
+            // the overrun is a function of the recovered state, not of where the process died: the signature names the start state and the grid family
+            V.viol.push_back({"C17:restart:budget-exceeded:start=" + start + ":" + famname[s.fam], d.str() + "Budget " + std::to_string(s.budget) + " exceeded: " + std::to_string(have) + " samples in the recovered state + " + std::to_string(fresh.size()) + " new ones."});
         }
         // (2d) every loaded value is the model value, the surrogate is nodal
         V.evals++;
@@ -547,13 +560,13 @@ static KPResult run_kill_point(const Ref &R, const KP &kp){
     return out;
 }
 static std::string case_json(const Ref &R, const KP &kp){
-    vf::J j; j.s("fam", famname[R.s.fam]).i("budget", R.s.budget).i("batch", R.s.batch).i("parallel", R.s.parallel).i("k", kp.k).i("b", kp.b).i("events", (long long) R.ev.size());
+    vf::J j = R.s.json(); j.i("k", kp.k).i("b", kp.b).i("events", (long long) R.ev.size());
     if (kp.k <= (long) R.ev.size()) j.s("event", std::string(fs::kname[R.ev[kp.k-1].kind]) + " " + fs::fname[R.ev[kp.k-1].file] + " " + std::to_string(R.ev[kp.k-1].n));
     return j.str();
 }
 // violations that need no crash: read off the reference run
 static void reference_checks(const Ref &R, long &evals){
-    const Scn &s = R.s; std::string cj = vf::J().s("fam", famname[s.fam]).i("budget", s.budget).i("batch", s.batch).i("parallel", s.parallel).i("k", 0).i("b", 0).str();
+    const Scn &s = R.s; std::string cj = s.json().i("k", 0).i("b", 0).str();
     int done = 0, lastc = -1, prev = -1; for(int e=0; e<R.nep; e++) if (R.l[e] > 0){ done++; prev = lastc; lastc = e; }
     evals++;
     if (done >= 2){
@@ -561,8 +574,12 @@ static void reference_checks(const Ref &R, long &evals){
         if (!R.has[1][e]) vf::violation("C17:disk:no-backup-file:after-complete-run", s.name(), cj, s.name() + ": " + std::to_string(done) + " checkpoints were written, yet the documented backup file <name>_old does not exist after the run.");
         else if (R.img[1][e] != R.img[0][prev] && R.img[1][e] != R.img[0][lastc]) vf::violation("C17:disk:backup-is-not-a-checkpoint:after-complete-run", s.name(), cj, s.name() + ": <name>_old exists after the run but equals neither of the two last checkpoints.");
     }
+    // the reference model of acknowledged work assumes the documented cadence: a checkpoint is written after every job (model call)
     evals++;
-    if (R.nl > s.budget || (int) R.before[R.nep-1].size() > s.budget) vf::violation("C17:reference-run:budget-exceeded", s.name(), cj, s.name() + ": the uninterrupted run computed " + std::to_string(R.before[R.nep-1].size()) + " samples / loaded " + std::to_string(R.nl) + " points with budget " + std::to_string(s.budget));
+    for(int e=1; e<R.nep; e++) if (R.l[e] == 0 || !R.has[0][e] || R.img[0][e] == R.img[0][e-1]){
+        vf::violation("C17:reference-run:no-checkpoint-after-model-call", s.name(), cj, s.name() + ": after model call " + std::to_string(e) + " of " + std::to_string(R.nep - 1) + " no new checkpoint was written before the next call / the end of the run; a crash would lose a sample that was obtained more than one job ago."); break; }
+    evals++;
+    if (R.nl > s.budget + R.base || (int) R.before[R.nep-1].size() > s.budget) vf::violation("C17:reference-run:budget-exceeded", s.name(), cj, s.name() + ": the uninterrupted run computed " + std::to_string(R.before[R.nep-1].size()) + " samples / loaded " + std::to_string(R.nl) + " points with budget " + std::to_string(s.budget));
     evals++;
     if (R.valbad > 0 || !(R.maxerr <= ((s.fam == FAM_WAVELET) ? 1e-7 : 1e-9))) vf::violation("C17:reference-run:final-not-interpolating", s.name(), cj, s.name() + ": the uninterrupted run ends with nodal error " + std::to_string(R.maxerr) + ", bad values " + std::to_string(R.valbad));
 }
@@ -574,6 +591,7 @@ static std::vector<Scn> scenarios(const std::string &tier){
     for(int budget : {6, 12}){
         for(int f : fams) for(int batch : {1, 2}){ Scn s; s.fam = f; s.budget = budget; s.batch = batch; v.push_back(s); }
         if (th && budget == 6) for(int f : {FAM_LOCALP, FAM_GLOBAL}) for(int batch : {1, 2}){ Scn s; s.fam = f; s.budget = 6; s.batch = batch; s.parallel = 1; v.push_back(s); }
+        if (th && budget == 6) for(int batch : {1, 2}){ Scn s; s.fam = FAM_LOCALP; s.budget = 4; s.batch = batch; s.preload = PRELOAD_DEPTH; v.push_back(s); }
     }
     return v;
 }
@@ -588,7 +606,7 @@ int main(int argc, char **argv){
     // sanitizer reports of recovery children are outcomes and there are thousands of them: no symbolisation while exploring (1-3 s each),
     // full reports when one case is replayed; allocations of garbage sizes are capped so that 16 workers cannot exhaust the machine.
     if (!getenv("CRASH_CKPT_REEXEC")){
-        std::string o = std::string(__asan_default_options()) + ":max_allocation_size_mb=256" + (A.has("--replay") ? "" : ":symbolize=0");
+        std::string o = std::string(__asan_default_options()) + ":max_allocation_size_mb=64" + (A.has("--replay") ? "" : ":symbolize=0");
         setenv("ASAN_OPTIONS", o.c_str(), 1); setenv("CRASH_CKPT_REEXEC", "1", 1);
         // what a restart does with a torn file depends on uninitialised stack words (F19); a fixed address-space layout keeps that reproducible from run to run
         personality(ADDR_NO_RANDOMIZE);
@@ -604,7 +622,7 @@ int main(int argc, char **argv){
     if (A.has("--replay")){
         std::string v = vf::slurp(A.get("--replay")), cs = vf::jget(v, "case"); Scn s; std::string fam = vf::jget(cs, "fam");
         for(int f=0; f<NFAM; f++) if (fam == famname[f]) s.fam = f;
-        s.budget = atoi(vf::jget(cs, "budget").c_str()); s.batch = atoi(vf::jget(cs, "batch").c_str()); s.parallel = atoi(vf::jget(cs, "parallel").c_str());
+        s.budget = atoi(vf::jget(cs, "budget").c_str()); s.batch = atoi(vf::jget(cs, "batch").c_str()); s.parallel = atoi(vf::jget(cs, "parallel").c_str()); s.preload = atoi(vf::jget(cs, "preload").c_str());
         KP kp{atol(vf::jget(cs, "k").c_str()), atol(vf::jget(cs, "b").c_str())};
         set_worker_dir(); Ref R = reference_run(s);
         if (!R.ok){ vf::emit(vf::J().s("t","error").s("what", R.err)); cleanup(); return 0; }
@@ -623,7 +641,7 @@ int main(int argc, char **argv){
     for(auto &s : S){
         Ref R = reference_run(s);
         if (!R.ok){ vf::emit(vf::J().s("t","error").s("what", s.name() + ": " + R.err)); continue; }
-        Ref R2 = reference_run(s);
+        Ref R2 = reference_run(s, false);
         if (!R2.ok || R2.sig != R.sig){ vf::emit(vf::J().s("t","note").s("text", s.name() + ": the event history is not deterministic, scenario left to the schedule explorer (C18)")); vf::emit(vf::J().s("t","incomplete").s("unit", s.name())); continue; }
         reference_checks(R, ref_evals);
         kps.push_back(kill_points(R, every_byte)); refs.push_back(R);
@@ -678,8 +696,8 @@ int main(int argc, char **argv){
         const KP &kp = kps[r][kps[r].size() / 2]; vf::emit(vf::J().s("t","sample").raw("case", case_json(R, kp)));
     }
     for(auto &o : outcomes) vf::emit(vf::J().s("t","outcome").s("key", o.first).i("n", o.second));
-    std::string bound = "tier=" + tier + ": " + std::to_string(refs.size()) + " scenarios (family x budget {6,12} x batch {1,2}" + (tier == "thorough" ? " + parallel mode with 1 worker" : "") + "); every file-system event of the recorded history is a kill point; torn writes at "
-                       + (every_byte ? "every byte offset" : "offsets {1, n-1, every field boundary -1/0/+1, every 24th byte} (all offsets for writes <= 64 bytes)") + "; death after completion included";
+    std::string bound = "tier=" + tier + ": " + std::to_string(refs.size()) + " scenarios (family x budget {6,12} x batch {1,2}" + (tier == "thorough" ? " + parallel mode with 1 worker thread (budget 6) + local polynomial grid preloaded with >= 1000 points (non-empty sample store, 4 further samples)" : "") + "); every file-system event of the recorded history is a kill point; torn writes at "
+                       + (every_byte ? "every byte offset of every checkpoint <= 4 KiB; larger checkpoints: offsets {1, n-1, every field boundary -1/0/+1, every 512th byte, every byte of the last 320 bytes (sample store)}" : "offsets {1, n-1, every field boundary -1/0/+1, every 24th byte} (all offsets for writes <= 64 bytes)") + "; death after completion included";
     { std::string tt; for(auto &o : times){ char b[64]; snprintf(b, sizeof(b), "%.1f", o.second); tt += o.first + "=" + b + "s "; } vf::emit(vf::J().s("t","note").s("text", "worker time by restart result class: " + tt)); }
     vf::emit(vf::J().s("t","note").s("text", "wall of the enumeration: " + std::to_string(vf::now() - t0) + " s"));
     vf::emit(vf::J().s("t","summary").i("units_total", (long long) S.size()).i("units_done", (long long) units_done).s("bound", bound).b("exhaustive", units_done == S.size() && !vf::past_deadline()));
